@@ -65,9 +65,9 @@ def run_op(o):
                 r = {n: getattr(m, n) for n in dir(m) if not n.startswith("__") and isinstance(getattr(m, n), (list, dict, set, frozenset, tuple, int, str))}
             elif k == "stdapi":
                 from xdis.std import make_std_api
-                a = make_std_api(tuple(o["version"]))
+                a = make_std_api(tuple(o["version"]), "pypy" if o.get("pypy") else None)
                 r = {"opmap": a.opmap, "opname": a.opname, "hasconst": a.hasconst, "hasname": a.hasname, "HAVE_ARGUMENT": a.HAVE_ARGUMENT, "EXTENDED_ARG": a.EXTENDED_ARG,
-                     "version": a.python_version_tuple}
+                     "version": a.python_version_tuple, "is_pypy": a.is_pypy}
             elif k == "mdumps":
                 import xdis.marsh as M
                 r = M.dumps(VALUES[o["value"]])
